@@ -6,7 +6,7 @@ from ..linform import _factors, lin, show_lin, subst_flags
 from ..program import AnalysisError
 from ..rules import calls, is_call, is_mcall, mcalls, mentions, mentions_any
 from ..terms import C, Evaluator, G, P, is_t, mk_proj, mk_slice, show, subterms
-from .common import Obs, arms_of, call0, choices_of, cond_has, ctor_fields, is_zero, retval_of, score_of, tuple_n, args_of
+from .common import main_ret, Obs, arms_of, call0, choices_of, cond_has, ctor_fields, is_zero, retval_of, score_of, tuple_n, args_of
 
 SELF = P("self")
 DIFF = G("genjax._src.core.compiler.interpreters.incremental.Diff")
@@ -76,7 +76,7 @@ def analyse_mask(obs: Obs, prog):
     # edit
     r = ev.eval_fn(M.methods["edit"], M.module, M)
     w = W(M, "edit")
-    q = tuple_n(r.ret, 4, "Mask.edit")
+    q = tuple_n(main_ret(obs, r, "Mask.edit", w, {"C05", "C14"}), 4, "Mask.edit")
     AD = P("argdiffs")
     post = dcall("tree_primal", mk_proj(AD, 0))
     pre = ("attr", P("trace"), "check")
@@ -196,7 +196,7 @@ def analyse_dimap(obs: Obs, prog):
     # edit
     r = ev.eval_fn(D.methods["edit_change_target"], D.module, D)
     w = W(D, "edit_change_target")
-    q = tuple_n(r.ret, 4, "Dimap.edit_change_target")
+    q = tuple_n(main_ret(obs, r, "Dimap.edit_change_target", w, {"C05", "C15"}), 4, "Dimap.edit_change_target")
     AD = P("argdiffs")
     pr, tg = dcall("tree_primal", AD), dcall("tree_tangent", AD)
     INC = G("genjax._src.core.compiler.interpreters.incremental.incremental")
